@@ -44,7 +44,8 @@ import (
 // Event is one harness-owned step.
 type Event struct {
 	// K is the kind: open, accept, cancel, write, read, closeWrite, close, rdl,
-	// wdl, sleep, deliver, deliverByte, closeMux.
+	// wdl, sleep, deliver, deliverByte, deliverN (the first N bytes of the
+	// oldest held chunk; the rest stays at the head of the queue), closeMux.
 	K string `json:"k"`
 	// S is the side the event acts on (0 = A, the odd multiplexer; 1 = B, the
 	// even one); for deliver / deliverByte it is the SENDING side.
@@ -84,6 +85,8 @@ func (e Event) String() string {
 		return fmt.Sprintf("%s>%s", s, sideName[1-e.S&1])
 	case "deliverByte":
 		return fmt.Sprintf("%s>%s.byte", s, sideName[1-e.S&1])
+	case "deliverN":
+		return fmt.Sprintf("%s>%s.first(%d)", s, sideName[1-e.S&1], e.N)
 	}
 	return e.K
 }
@@ -256,6 +259,28 @@ func (q *wire) deliver(byteWise bool) bool {
 // were handed over but not consumed do not count: a live multiplexer consumes
 // what it is given, and one that does not is exactly what the oracles that use
 // idle() are there to expose.
+// deliverN hands over the first n bytes of the oldest held chunk (all of it if
+// it is not longer): the carrier read boundary then falls at offset n.
+func (q *wire) deliverN(n int) bool {
+	q.mu.Lock()
+	defer q.mu.Unlock()
+	if q.closed || len(q.held) == 0 || n <= 0 {
+		return false
+	}
+	if n >= len(q.held[0]) {
+		q.avail = append(q.avail, q.held[0]...)
+		q.held = q.held[1:]
+		q.partial = nil
+	} else {
+		q.avail = append(q.avail, q.held[0][:n]...)
+		q.partial = append(q.partial, q.held[0][:n]...)
+		q.held[0] = q.held[0][n:]
+	}
+	signal(q.wake)
+	signal(q.space)
+	return true
+}
+
 func (q *wire) idle() bool {
 	q.mu.Lock()
 	defer q.mu.Unlock()
@@ -725,6 +750,8 @@ func (w *world) do(ev Event, step int) bool {
 		return w.wires[s].deliver(false)
 	case "deliverByte":
 		return w.wires[s].deliver(true)
+	case "deliverN":
+		return w.wires[s].deliverN(ev.N)
 	case "closeMux":
 		if w.harnessClosed[s] {
 			return false
